@@ -772,18 +772,35 @@ func pathAvoiding(fn *ssa.Function, from ssa.Instruction, target, avoid func(ssa
 	// `if flag` and flag is a phi of that block with a constant on the edge the
 	// path arrived by (`found := false; for … { found = true; break }; if !found`),
 	// only the consistent successor is followed.
-	type st struct {
-		b     *ssa.BasicBlock
-		prev  *ssa.BasicBlock
-		start int
-		trace []*ssa.BasicBlock
+	// Boolean flag phis are tracked along the path: passing the phi's block on
+	// an edge with a constant records its value; a later `if flag` (in any
+	// block) then follows only the consistent successor.
+	phiIdx := map[*ssa.Phi]uint{}
+	for _, b := range fn.Blocks {
+		for _, in := range b.Instrs {
+			if phi, ok := in.(*ssa.Phi); ok && len(phiIdx) < 60 {
+				if bt, ok := phi.Type().Underlying().(*types.Basic); ok && bt.Kind() == types.Bool {
+					phiIdx[phi] = uint(len(phiIdx))
+				}
+			}
+		}
 	}
-	type key struct{ b, prev *ssa.BasicBlock }
+	type st struct {
+		b          *ssa.BasicBlock
+		prev       *ssa.BasicBlock
+		start      int
+		trace      []*ssa.BasicBlock
+		known, val uint64
+	}
+	type key struct {
+		b, prev    *ssa.BasicBlock
+		known, val uint64
+	}
 	var q []st
 	seen := map[key]bool{}
 	if from == nil {
-		q = append(q, st{fn.Blocks[0], nil, 0, nil})
-		seen[key{fn.Blocks[0], nil}] = true
+		q = append(q, st{fn.Blocks[0], nil, 0, nil, 0, 0})
+		seen[key{fn.Blocks[0], nil, 0, 0}] = true
 	} else {
 		b := from.Block()
 		i := 0
@@ -792,7 +809,7 @@ func pathAvoiding(fn *ssa.Function, from ssa.Instruction, target, avoid func(ssa
 				i = j + 1
 			}
 		}
-		q = append(q, st{b, nil, i, nil})
+		q = append(q, st{b, nil, i, nil, 0, 0})
 		// note: from.Block() can be revisited from its start through a loop
 	}
 	for len(q) > 0 {
@@ -815,44 +832,24 @@ func pathAvoiding(fn *ssa.Function, from ssa.Instruction, target, avoid func(ssa
 		}
 		succs := s.b.Succs
 		if len(s.b.Instrs) > 0 && len(succs) == 2 {
-			// a constant condition (`if configFlag {`) has one live successor
 			if iff, ok := s.b.Instrs[len(s.b.Instrs)-1].(*ssa.If); ok {
 				v, pol := stripNot(iff.Cond, true)
+				takeTrue, decided := false, false
 				if isConstBool(v, true) {
-					if pol {
-						succs = succs[:1]
-					} else {
-						succs = succs[1:]
-					}
+					takeTrue, decided = pol, true
 				} else if isConstBool(v, false) {
-					if pol {
-						succs = succs[1:]
-					} else {
-						succs = succs[:1]
+					takeTrue, decided = !pol, true
+				} else if phi, ok := v.(*ssa.Phi); ok {
+					if ix, ok := phiIdx[phi]; ok && s.known&(1<<ix) != 0 {
+						pv := s.val&(1<<ix) != 0
+						takeTrue, decided = pv == pol, true
 					}
 				}
-			}
-		}
-		if s.prev != nil && len(s.b.Instrs) > 0 && len(succs) == 2 {
-			if iff, ok := s.b.Instrs[len(s.b.Instrs)-1].(*ssa.If); ok {
-				v, pol := stripNot(iff.Cond, true)
-				if phi, ok := v.(*ssa.Phi); ok && phi.Block() == s.b {
-					for i, p := range s.b.Preds {
-						if p == s.prev {
-							if isConstBool(phi.Edges[i], true) {
-								if pol {
-									succs = succs[:1]
-								} else {
-									succs = succs[1:]
-								}
-							} else if isConstBool(phi.Edges[i], false) {
-								if pol {
-									succs = succs[1:]
-								} else {
-									succs = succs[:1]
-								}
-							}
-						}
+				if decided {
+					if takeTrue {
+						succs = succs[:1]
+					} else {
+						succs = succs[1:]
 					}
 				}
 			}
@@ -861,10 +858,41 @@ func pathAvoiding(fn *ssa.Function, from ssa.Instruction, target, avoid func(ssa
 			if pathEdgeFilter != nil && pathEdgeFilter(s.b, nx) {
 				continue
 			}
-			k := key{nx, s.b}
+			known, val := s.known, s.val
+			for _, in := range nx.Instrs {
+				phi, ok := in.(*ssa.Phi)
+				if !ok {
+					break
+				}
+				ix, ok := phiIdx[phi]
+				if !ok {
+					continue
+				}
+				known &^= 1 << ix
+				val &^= 1 << ix
+				for i, p := range nx.Preds {
+					if p == s.b && i < len(phi.Edges) {
+						if isConstBool(phi.Edges[i], true) {
+							known |= 1 << ix
+							val |= 1 << ix
+						} else if isConstBool(phi.Edges[i], false) {
+							known |= 1 << ix
+						} else if src, ok := phi.Edges[i].(*ssa.Phi); ok {
+							// flag copied from another tracked flag
+							if sx, ok := phiIdx[src]; ok && s.known&(1<<sx) != 0 {
+								known |= 1 << ix
+								if s.val&(1<<sx) != 0 {
+									val |= 1 << ix
+								}
+							}
+						}
+					}
+				}
+			}
+			k := key{nx, s.b, known, val}
 			if !seen[k] {
 				seen[k] = true
-				q = append(q, st{nx, s.b, 0, tr})
+				q = append(q, st{nx, s.b, 0, tr, known, val})
 			}
 		}
 	}
